@@ -7,6 +7,7 @@ import (
 	"time"
 
 	z "github.com/Oudwins/zog"
+	zinternals "github.com/Oudwins/zog/internals"
 
 	"zogverif/internal/core"
 	"zogverif/internal/gen"
@@ -134,7 +135,61 @@ func embeddedDirect() c06direct {
 		}}
 }
 
-func init() { c06Directs = append(c06Directs, embeddedDirect()) }
+// records given as Go structs whose fields are pointers of several depths (PATCH-style "explicit null": **T with a nil inner pointer),
+// by value and through a pointer; the pools having been reset (internals.ClearPools) before the call; context values passed
+type C06Patch struct {
+	Name **string
+	Age  ***int
+	Tags *[]*string
+}
+
+func pointerRecordsDirect() c06direct {
+	sch := func() *z.StructSchema {
+		return z.Struct(z.Schema{"Name": z.String().Required(), "Age": z.Int(), "Tags": z.Slice(z.String())})
+	}
+	str, num := "n", 7
+	ps, pn := &str, &num
+	ppn := &pn
+	var nilS *string
+	var nilN *int
+	nilPN := &nilN
+	var nilPPN **int
+	tags := []*string{ps, nil}
+	own := []any{
+		C06Patch{Name: &ps, Age: &ppn, Tags: &tags},
+		C06Patch{Name: &nilS, Age: &nilPN},
+		C06Patch{Name: &nilS, Age: &nilPPN, Tags: new([]*string)},
+		C06Patch{},
+		&C06Patch{Name: &nilS},
+		&C06Patch{Age: &nilPN, Tags: &tags},
+	}
+	type dest struct {
+		Name string
+		Age  int
+		Tags []string
+	}
+	return c06direct{name: "Struct{Name, Age, Tags} reading Go struct records with **string / ***int / *[]*string fields, after internals.ClearPools(), with a context value", own: own,
+		run: func(place int, data any) {
+			zinternals.ClearPools()
+			opt := z.WithCtxValue("request", "r1")
+			switch place {
+			case 0:
+				var d dest
+				sch().Parse(data, &d, opt)
+			case 1:
+				var d struct{ V dest }
+				z.Struct(z.Schema{"v": sch()}).Parse(map[string]any{"v": data}, &d, opt)
+			case 2:
+				var d []dest
+				z.Slice(sch()).Parse([]any{data, data}, &d, opt)
+			case 3:
+				var d *dest
+				z.Ptr(sch()).Parse(data, &d, opt)
+			}
+		}}
+}
+
+func init() { c06Directs = append(c06Directs, embeddedDirect(), pointerRecordsDirect()) }
 
 func c06DirectCase(c *core.Ctx, d c06direct) {
 	inputs := append(append([]any{}, d.own...), c06Hostile...)
